@@ -612,6 +612,9 @@ static void runLifecycle(const std::vector<Entry> &reg, const json &job, vt::Tra
             b.pdef = pd.get();
             b.stopOnExact = kname == "inf";
             std::size_t nBefore = pd->getSolutionCount();
+            // "inf" stops on an exact solution: if the definition already holds one the condition is true from its
+            // first evaluation on (the planner is interrupted before its first iteration)
+            const bool firedAtEntry = b.stopOnExact && pd->hasExactSolution();
             ob::PlannerSolution topB(nullptr);
             bool hadTop = pd->getSolutions().size() > 0;
             if (hadTop)
@@ -625,6 +628,7 @@ static void runLifecycle(const std::vector<Entry> &reg, const json &job, vt::Tra
             pr.pdef = pd;
             ev["k"] = kname;
             ev["kval"] = b.stopOnExact ? -1 : b.k;
+            ev["firedAtEntry"] = firedAtEntry;
             ev["evals"] = (long)b.evals.load();
             ev["planner"] = e->name;
             ev["W"] = w.W;
